@@ -22,6 +22,9 @@ import time
 VERIF = os.path.dirname(os.path.dirname(os.path.abspath(__file__)))
 SPEC = os.path.join(VERIF, "spec")
 HARNESS = os.path.join(VERIF, "harness")
+# every copy of /verif (a background snapshot, a scratch copy for a mutation
+# run) has its own key pool: the harness binaries take the path from here
+os.environ.setdefault("VERIF_KEYPOOL", os.path.join(HARNESS, "keypool.bin"))
 TARGET = os.path.join(HARNESS, "target")
 # harness crates: directory under /verif -> binary name. All share one
 # target directory, so krill itself is compiled once.
